@@ -89,7 +89,7 @@ def run(ck):
             L = letters(dsmax)
             # the log path is relative: every harness process runs in its own work directory
             cfg = b'[snoopy]\nmessage_format = %%{filename}|%%{cmdline}\ndatasource_message_max_length = %d\noutput = file:log\n' % dsmax
-            prelude = ['sinks pipe', 'lean 1', 'cfg ' + H.hx(cfg)]
+            prelude = ['sinks pipe', 'lean 1', 'errno -1', 'cfg ' + H.hx(cfg)]
             ex = hist.Explorer(v['h_exec'], symfile, os.path.join(ck.workdir, '%s-%d' % (vname, dsmax)), prelude,
                                {k: [val[3]] for k, val in L.items()}, warmup=['call execve h2f77 [h77] [] -1 2'])
             # reference: each letter as the very first wrapped call of a fresh process (no warm-up call before it)
